@@ -7,5 +7,8 @@ pub mod backoff;
 pub mod balancer;
 pub mod codec;
 pub mod engine;
+pub mod ingress;
 pub mod router;
+pub mod rpq;
+pub mod sec;
 pub mod trie;
